@@ -64,10 +64,11 @@ type Sequence int64
 // uint32 space to be after any sequence in the last quarter of that space, thus
 // wrapping the uint32 space.
 func (s Sequence) Difference(t Sequence) int {
+	// the sequence space has 2^32 values, so a wrapped value is lifted by 2^32 (not by 2^32-1)
 	if s > uint32Max-uint32Max/4 && t < uint32Max/4 {
-		t += uint32Max
+		t += uint32Max + 1
 	} else if t > uint32Max-uint32Max/4 && s < uint32Max/4 {
-		s += uint32Max
+		s += uint32Max + 1
 	}
 	return int(t - s)
 }
